@@ -41,6 +41,23 @@ Lemma mapping_flag_values :
   flag_map_log = 2%N /\ flag_map_lin = 6%N /\ flag_map_cub = 14%N.
 Proof. repeat split; reflexivity. Qed.
 
+(* Go's mapping.Decode switches on the whole flag byte; [dec_mapping] looks at the subflag only and is
+   called by the block loop on flags of type "mapping": there the two tests coincide *)
+Definition flag_char_test (f : N) : bool :=
+  implb (flag_type f =? ft_mapping)%N
+        (Bool.eqb ((N.shiftr f 2 =? 0) || (N.shiftr f 2 =? 1) || (N.shiftr f 2 =? 3))%N
+                  ((f =? 2) || (f =? 6) || (f =? 14))%N).
+Lemma flag_char_sweep : forallb flag_char_test bytes256 = true.
+Proof. vm_compute. reflexivity. Qed.
+
+Lemma mapping_flag_char f : (f < 256)%N -> flag_type f = ft_mapping ->
+  (kind_ok (N.shiftr f 2) <-> f = 2%N \/ f = 6%N \/ f = 14%N).
+Proof.
+  intros Hf Ht. pose proof (byte_sweep flag_char_test flag_char_sweep f Hf) as H.
+  unfold flag_char_test in H. rewrite Ht, N.eqb_refl in H. cbn [implb] in H.
+  apply Bool.eqb_prop in H. rewrite <- kind_ok_test, H, !orb_true_iff, !N.eqb_eq. tauto.
+Qed.
+
 Lemma dec_mapping_kind_ok f b : kind_ok (N.shiftr f 2) ->
   dec_mapping f b =
   match Varfloat.dec_f64le b with
